@@ -1,4 +1,5 @@
 import SFV.Proofs.GaussCompile
+import SFV.Proofs.GaussBlocks
 
 /-!
 # C11 — Gaussian-merging compilers return a program with the same net action
@@ -19,7 +20,7 @@ output is validated per instance by the certificate checker `checkMerge`, proved
 monoid setting.
 -/
 namespace SFV.C11
-open SFV SFV.GC
+open SFV SFV.GC SFV.Gauss Matrix
 
 /-- **row operations = embedded blocks (one mode).**  `_apply_symp_one_mode_gate(S_G, S, r, i)` on a
 `2M × 2M` matrix is the product with the 2×2 block embedded at quadratures `(i, i + M)`. -/
@@ -133,6 +134,129 @@ def roti : Mat Int := fun i j => if i = 0 ∧ j = 1 then 1 else if i = 1 ∧ j =
 def cx : Mat Int := fun i j => if i = j then 1 else if i = 1 ∧ j = 0 then 1 else if i = 2 ∧ j = 3 then -1 else 0
 def cxi : Mat Int := fun i j => if i = j then 1 else if i = 1 ∧ j = 0 then -1 else if i = 2 ∧ j = 3 then 1 else 0
 
+
+/-! ### the blocks are the documented ones (`Model/GaussBlocks.lean`)
+
+Since the deepening round the blocks of `Dgate Rgate Sgate BSgate S2gate MZgate sMZgate` are built by the model
+from the parameter atoms (`Gate.cmd`); only `Interferometer` / `GaussianTransform` / `PassiveChannel` matrices,
+which *are* user data, still enter as data. -/
+
+/-- **inverse blocks.**  The block the model uses for a daggered gate (negated first parameter for rotation,
+squeezing, beamsplitter, two-mode squeezing; adjoint unitary for the Mach-Zehnder gates, for which "negate the
+first parameter" would be wrong) is the inverse of the gate's block — i.e. what `np.linalg.inv` / `.conj().T`
+return — for all parameter values. -/
+theorem documented_inverses {K : Type} [CommRing K] :
+    (∀ c s : K, c * c + s * s = 1 → LeftInv 2 (rotBlock c (-s)) (rotBlock c s)) ∧
+    (∀ c s ch sh : K, c * c + s * s = 1 → ch * ch - sh * sh = 1 →
+      LeftInv 2 (sqBlock c s ch (-sh)) (sqBlock c s ch sh)) ∧
+    (∀ ct st c s : K, c * c + s * s = 1 → ct * ct + st * st = 1 →
+      LeftInv 4 (bsBlock ct (-st) c s) (bsBlock ct st c s)) ∧
+    (∀ c s ch sh : K, c * c + s * s = 1 → ch * ch - sh * sh = 1 →
+      LeftInv 4 (s2Block c s ch (-sh)) (s2Block c s ch sh)) ∧
+    (∀ (h : K) (v u : Cx K), h + h = 1 → v.re * v.re + v.im * v.im = 1 → u.re * u.re + u.im * u.im = 1 →
+      LeftInv 4 (ofU (adjU (mzU h v u))) (ofU (mzU h v u))) ∧
+    (∀ (es : Cx K) (cd sd : K), es.re * es.re + es.im * es.im = 1 → cd * cd + sd * sd = 1 →
+      LeftInv 4 (ofU (adjU (smzU es cd sd))) (ofU (smzU es cd sd))) :=
+  ⟨rot_inv, sq_inv, fun ct st c s h1 h2 => bs_inv ct st c s h1 h2, s2_inv,
+   fun h v u hh hv hu => ofU_adj_inv _ (mz_unitary h v u hh hv hu),
+   fun es cd sd he hd => ofU_adj_inv _ (smz_unitary es cd sd he hd)⟩
+
+/-- **embedded blocks = documented rows.**  For every register size and position the rotation, squeezing and
+beamsplitter blocks, embedded by `expand`, are entry by entry the matrices of the documented rows `rotRows`,
+`squeezeRows`, `bsRows` of `Model/PhaseSpace.lean` (which the Gaussian simulator is proved to refine, C01, and
+which are proved symplectic, C07); `BSgate(θ, φ)` is the simulator's `beamsplitter(−θ, −φ)`. -/
+theorem blocks_are_documented_rows {K : Type} [CommRing K] (n k l : Nat) (hk : k < n) (hl : l < n) (hkl : k ≠ l)
+    (i j : Nat) (hi : i < 2 * n) (hj : j < 2 * n) :
+    (∀ c s : K, embedRows (xpRows [k] n) (rotBlock c s) i j = rowsMat n (rotRows k c s) i j) ∧
+    (∀ c s ch sh : K, embedRows (xpRows [k] n) (sqBlock c s ch sh) i j = rowsMat n (squeezeRows k c s ch sh) i j) ∧
+    (∀ ct st c s : K,
+      embedRows (xpRows [k, l] n) (bsBlock ct st c s) i j = rowsMat n (bsRows k l c (-s) ct (-st)) i j) :=
+  ⟨fun c s => rot_rows n k hk c s i j hi hj, fun c s ch sh => sq_rows n k hk c s ch sh i j hi hj,
+   fun ct st c s => bs_rows n k l hk hl hkl ct st c s i j hi hj⟩
+
+/-- **net_symplectic, documented form.**  For every circuit of (possibly daggered) rotations, squeezers and
+beamsplitters on any index set, the emitted matrix — as a Mathlib matrix over the quadratures of the emitted
+registers — is the ordered product of the matrices of the documented rows. -/
+theorem net_symplectic_documented {K : Type} [CommRing K] [DecidableEq K] (registers : List Nat)
+    (l : List (Applied K)) (hreg : ∀ a ∈ l, ∀ m ∈ a.regs, m ∈ registers) (hrows : ∀ a ∈ l, a.hasRows) :
+    toMat (compileGU registers (l.map Applied.cmd)).n (compileGU registers (l.map Applied.cmd)).S =
+      (l.map fun a => rowsMatrix (compileGU registers (l.map Applied.cmd)).n
+        (a.rows fun m => (compileGU registers (l.map Applied.cmd)).regs.idxOf m)).foldl (fun P M => M * P) 1 :=
+  compileGU_documented registers l hreg hrows
+
+/-- **compiled = source on the Gaussian simulator's specification.**  Running the source gates (modes relabelled
+by their position in the emitted register list) through the phase-space specification that `GaussianModes`
+refines (`applyXP`, C01) transforms a symmetric covariance `V` into `S_net V S_netᵀ` with the emitted matrix. -/
+theorem compiled_is_source_on_simulator {K : Type} [CommRing K] [DecidableEq K] (registers : List Nat)
+    (l : List (Applied K)) (hreg : ∀ a ∈ l, ∀ m ∈ a.regs, m ∈ registers) (hrows : ∀ a ∈ l, a.hasRows)
+    (V : XP K) (hxx : ∀ i j, V.xx i j = V.xx j i) (hpp : ∀ i j, V.pp i j = V.pp j i) :
+    covMatrix (compileGU registers (l.map Applied.cmd)).n
+        ((l.map (Applied.gop fun m => (compileGU registers (l.map Applied.cmd)).regs.idxOf m)).foldl applyXP V) =
+      toMat (compileGU registers (l.map Applied.cmd)).n (compileGU registers (l.map Applied.cmd)).S *
+        covMatrix (compileGU registers (l.map Applied.cmd)).n V *
+        (toMat (compileGU registers (l.map Applied.cmd)).n (compileGU registers (l.map Applied.cmd)).S)ᵀ :=
+  compileGU_source_cov registers l hreg hrows V hxx hpp
+
+/-! ### the code before the `fix:` commits -/
+
+/-- the pre-fix accumulation (`used_modes` in hash order `ord`, dagger flags ignored) is right only when the hash
+order is the ascending order and nothing is daggered -/
+theorem net_symplectic_old_partial {K : Type} [CommRing K] [DecidableEq K] (registers : List Nat)
+    (cmds : List (GCmd K)) (hd : ∀ c ∈ cmds, c.dagger = false) :
+    compileGUOld (usedModes cmds) registers cmds = compileGU registers cmds :=
+  compileGUOld_eq registers cmds hd
+
+/-- hash order `[8, 1]`: a rotation of mode 8 ends up in the rows of the first emitted register, mode 1 -/
+theorem net_symplectic_old_hashorder_counterexample :
+    (compileGUOld [8, 1] (List.range 10) [({ regs := [8], op := .blk1 rot roti } : GCmd Int)]).regs = [1, 8] ∧
+    (compileGUOld [8, 1] (List.range 10) [({ regs := [8], op := .blk1 rot roti } : GCmd Int)]).S 0 2 = -1 ∧
+    (netSpecGU (fun m => [1, 8].idxOf m) 2 [({ regs := [8], op := .blk1 rot roti } : GCmd Int)]).S 0 2 = 0 := by
+  decide
+
+/-- a daggered gate was merged as if it were not inverted -/
+theorem net_symplectic_old_dagger_counterexample :
+    (compileGUOld [0] [0] [({ regs := [0], dagger := true, op := .blk1 rot roti } : GCmd Int)]).S 0 1 = -1 ∧
+    (netSpecGU (fun m => [0].idxOf m) 1 [({ regs := [0], dagger := true, op := .blk1 rot roti } : GCmd Int)]).S 0 1 = 1 := by
+  decide
+
+/-! ### gaussian_merge: the repaired graph surgery -/
+
+/-- **surgery, order relative to the block.**  `surgeryEdges l ms g ds` is the edge set of `new_DAG` after
+`merge_a_gaussian_op` replaced the commands `ms` of the circuit `l` by `g :: ds` (compared with the real graph
+on every merge step).  In *every* list in which these edges point forward — every topological sort NetworkX may
+return — two commands that stay and share a wire keep their order, and a command that stays and shares a wire
+with a merged command that follows (precedes) it comes before (after) the first emitted command. -/
+theorem merge_surgery_order (l ms ds : List Cmd) (g : Cmd) (out : List Cmd)
+    (hf : forward (surgeryEdges l ms g ds) out = true) (a b : Cmd) (hb : Before l a b) (hd : dep a b) :
+    (a ∉ ms → b ∉ ms → out.idxOf a < out.idxOf b) ∧
+    (a ∉ ms → b ∈ ms → out.idxOf a < out.idxOf g) ∧
+    (a ∈ ms → b ∉ ms → out.idxOf g < out.idxOf b) := by
+  have h := surgery_order l ms ds g out hf hb hd
+  refine ⟨fun ha hb' => ?_, fun ha hb' => ?_, fun ha hb' => ?_⟩ <;>
+    rcases h with h | ⟨h1, h2⟩ <;> first | (simpa [cpos, ha, hb'] using h) | exact absurd h1 ha | exact absurd h2 hb'
+
+/-- **surgery, order relative to an emitted displacement gate** on mode `q` (no measured-parameter
+dependencies on `q`): a command that stays, acts on `q` and follows a merged command on `q` comes after it. -/
+theorem merge_surgery_order_disp (l ms ds : List Cmd) (g d : Cmd) (out : List Cmd) (q : Nat)
+    (hf : forward (surgeryEdges l ms g ds) out = true) (hd : d ∈ ds) (hq : q ∈ d.regs)
+    (hregs : ∀ c ∈ l, q ∈ c.wires → q ∈ c.regs)
+    (a b : Cmd) (hb : Before l a b) (ha : q ∈ a.wires) (hbq : q ∈ b.wires) (ham : a ∈ ms) (hbm : b ∉ ms) :
+    out.idxOf d < out.idxOf b :=
+  surgery_order_disp l ms ds g d out q hf hd hq hregs hb ha hbq ham hbm
+
+/-- the pre-fix surgery on `sMZgate | (4,1); Dgate | 4; MeasureFock | (1,3)`: the block emitted displacement
+gates, so the measurement got no edge from it and was sorted in front — rejected by the checker for either
+placement of the block -/
+def oSrc : List Cmd :=
+  [ { id := 0, cls := "sMZgate", regs := [4, 1] }, { id := 1, cls := "Dgate", regs := [4] },
+    { id := 2, cls := "MeasureFock", regs := [1, 3] } ]
+def oOut : List Cmd :=
+  [ { id := 2, cls := "MeasureFock", regs := [1, 3] }, { id := 10, cls := "GaussianTransform", regs := [1, 4] },
+    { id := 11, cls := "Dgate", regs := [4] } ]
+theorem merge_old_surgery_counterexample :
+    checkMerge oSrc oOut [⟨[0, 1], [10, 11]⟩] [.keep 2, .block 0] = false ∧
+    forward (surgeryEdges oSrc [oSrc[0]!, oSrc[1]!] oOut[1]! [oOut[2]!]) oOut = false := by decide
+
 /-- modes {8, 1} (hash order ≠ numeric order), descending pair, daggered gates, a displacement -/
 def exCmds : List (GCmd Int) :=
   [ { regs := [8], op := .blk1 rot roti },
@@ -181,5 +305,18 @@ example : checkMerge mSrc mOut mBlocks [.block 0, .keep 3, .block 1] = true := b
 /-- moving the Kerr gate in front of the block that precedes it on its wire is rejected -/
 example : checkMerge mSrc [mOut[1]!, mOut[0]!, mOut[2]!, mOut[3]!] mBlocks [.keep 3, .block 0, .block 1] = false := by
   decide
+
+/-- documented gates at rational atoms on modes {8, 1}: `R(3/5, 4/5) | 8`, `BS.H | (8, 1)`, `S | 1` -/
+def exApplied : List (Applied Rat) :=
+  [ { g := .R (3/5) (4/5), regs := [8] }, { g := .BS (4/5) (3/5) (5/13) (12/13), regs := [8, 1], dagger := true },
+    { g := .S (3/5) (4/5) (5/4) (3/4), regs := [1] } ]
+example : (∀ a ∈ exApplied, ∀ m ∈ a.regs, m ∈ List.range 10) ∧ (∀ a ∈ exApplied, a.hasRows) := by
+  refine ⟨by decide, ?_⟩
+  intro a ha
+  simp only [exApplied, List.mem_cons, List.not_mem_nil, or_false] at ha
+  rcases ha with rfl | rfl | rfl <;> simp [Applied.hasRows]
+/-- the surgery edges of the hybrid example: the Kerr gate is connected to the block before and after it -/
+example : forward (surgeryEdges mSrc [mSrc[4]!, mSrc[5]!] mOut[2]! [mOut[3]!])
+    [mSrc[0]!, mSrc[1]!, mSrc[2]!, mSrc[3]!, mOut[2]!, mOut[3]!] = true := by decide
 
 end SFV.C11
